@@ -953,10 +953,7 @@ func c07RoundTrips(tag string, h *sam.Header) *c07Fail {
 // checkStep judges the state after one operation.
 func (w *c07World) checkStep(op c07Op, st c07Step) (fs []*c07Fail) {
 	if st.o.panicked {
-		// panics of the line parsers on malformed text belong to C11 (decoders are total), not to this property
-		if op.K == "um" || op.K == "pa" || op.K == "de" || (op.K == "hd" && op.S != "") {
-			return nil
-		}
+		// no operation may panic: the line parsers return an error for every malformed line
 		return []*c07Fail{{"c07.panic:" + topRepoFrame(st.o.stack), fmt.Sprintf("operation %s panicked: %s", op.K, st.o.panicVal)}}
 	}
 	if f := w.checkLinks(st); f != nil {
